@@ -502,6 +502,8 @@ pub struct Socket<'a> {
     remote_last_ack: Option<TcpSeqNumber>,
     /// The last window length sent.
     remote_last_win: u16,
+    /// Whether `remote_last_win` was sent in a SYN segment, whose window field is never scaled.
+    remote_last_win_in_syn: bool,
     /// The sending window scaling factor advertised to remotes which support RFC 1323.
     /// It is zero if the window <= 64KiB and/or the remote does not support it.
     remote_win_shift: u8,
@@ -607,6 +609,7 @@ impl<'a> Socket<'a> {
             remote_max_seq: TcpSeqNumber::default(),
             remote_last_ack: None,
             remote_last_win: 0,
+            remote_last_win_in_syn: false,
             remote_win_len: 0,
             remote_win_shift: rx_cap_log2.saturating_sub(16) as u8,
             remote_win_scale: None,
@@ -923,6 +926,7 @@ impl<'a> Socket<'a> {
         self.remote_max_seq = TcpSeqNumber::default();
         self.remote_last_ack = None;
         self.remote_last_win = 0;
+        self.remote_last_win_in_syn = false;
         self.remote_win_len = 0;
         self.remote_win_scale = None;
         self.remote_win_shift = rx_cap_log2.saturating_sub(16) as u8;
@@ -1499,6 +1503,7 @@ impl<'a> Socket<'a> {
         // segments, is right-shifted by [advertised scale value] bits[...]
         reply_repr.window_len = self.scaled_window();
         self.remote_last_win = reply_repr.window_len;
+        self.remote_last_win_in_syn = false;
 
         // If the remote supports selective acknowledgement, add the option to the outgoing
         // segment.
@@ -1713,7 +1718,13 @@ impl<'a> Socket<'a> {
 
         let window_start = self.remote_seq_no + self.rx_buffer.len();
         let window_end = if let Some(last_ack) = self.remote_last_ack {
-            last_ack + ((self.remote_last_win as usize) << self.remote_win_shift)
+            // The window field of a SYN is not scaled (RFC 7323 2.2).
+            let shift = if self.remote_last_win_in_syn {
+                0
+            } else {
+                self.remote_win_shift
+            };
+            last_ack + ((self.remote_last_win as usize) << shift)
         } else {
             window_start
         };
@@ -2836,6 +2847,7 @@ impl<'a> Socket<'a> {
         }
         self.remote_last_ack = repr.ack_number;
         self.remote_last_win = repr.window_len;
+        self.remote_last_win_in_syn = repr.control == TcpControl::Syn;
 
         if repr.segment_len() > 0 {
             self.rtte
